@@ -12,7 +12,10 @@
     acknowledged sees that change — with every attribute of the account — and never an older
     state, whatever the clock says.
 
-  Grey zones (admitted either way): none for accounts other than root.  Calls naming the root
+  Grey zones (admitted either way): while a change is in flight (invoked, not yet acknowledged) a
+  lookup or listing may already see it or not yet, independently of other lookups / listings that
+  overlap the same change (`mustPrecede`); once it is acknowledged everybody sees it.  Otherwise
+  none for accounts other than root.  Calls naming the root
   account's access key follow the same map rules with root absent from the map, except that a
   lookup answers the root account and a create is refused; the S3 request path never asks the
   service about root (s3api/middlewares/authentication.go getAccount).
@@ -116,9 +119,19 @@ def dropAt {α} : List α → Nat → List α
   | _ :: xs, 0 => xs
   | x :: xs, i + 1 => x :: dropAt xs i
 
-/-- Wing–Gong search: some call that no other pending call precedes in real time comes next and
-answers what the map answers; recurse on the rest. -/
-def linSearch (root : Account) (univ : List Bytes) : Nat → Accts → List Rec → Bool
+def overlaps (m x : Rec) : Bool := decide (m.inv < x.ret) && decide (x.inv < m.ret)
+
+/-- `r'` returned before `r` was invoked, and the order of the two is prescribed: always, except
+for two reads (lookup / listing) that both overlap one and the same change — the property speaks
+about ACKNOWLEDGED changes; while a change is in flight a read may already see it or not yet,
+independently of other reads -/
+def mustPrecede (all : List Rec) (r' r : Rec) : Bool :=
+  decide (r'.ret < r.inv) &&
+  !(!r'.op.isMut && !r.op.isMut && all.any fun m => m.op.isMut && overlaps m r' && overlaps m r)
+
+/-- Wing–Gong search: some call that no other pending call must precede comes next and answers
+what the map answers; recurse on the rest. -/
+def linSearch (root : Account) (univ : List Bytes) (all : List Rec) : Nat → Accts → List Rec → Bool
   | _, _, [] => true
   | 0, _, _ :: _ => false
   | fuel + 1, m, pending =>
@@ -127,14 +140,14 @@ def linSearch (root : Account) (univ : List Bytes) : Nat → Accts → List Rec 
       match pending[i]? with
       | none => false
       | some r =>
-        pending.all (fun r' => !(decide (r'.ret < r.inv))) &&
+        pending.all (fun r' => !mustPrecede all r' r) &&
         resOkB root univ m r.op r.res &&
-        linSearch root univ fuel (apply root m r.op).1 (dropAt pending i)
+        linSearch root univ all fuel (apply root m r.op).1 (dropAt pending i)
 
 def keysOf (h : List Rec) : List Bytes := h.map (·.op.key)
 
 /-- the oracle: is the observed history admissible for a gateway that started on `init`? -/
 def linearizableB (root : Account) (init : List Account) (h : List Rec) : Bool :=
-  linSearch root (keysOf h ++ init.map (·.access)) h.length (Accts.ofList init) h
+  linSearch root (keysOf h ++ init.map (·.access)) h h.length (Accts.ofList init) h
 
 end Vgw.Spec.IAM
